@@ -179,6 +179,27 @@ def round_trip(spec, opts, stage_name, op, tmpdir, col, label):
     if bad:
         kinds = sorted(set("%s.%s" % (a, b) for a, b, c in bad))
         out.append(("C16:unresolved-cross-reference:%s" % ",".join(kinds)[:100], {"stage": stage_name, "bad": bad[:6]}))
+    # a paused project continues to the same result in the original and in the loaded project, under rules that read other parts of the model
+    if uses_only_saved_settings(spec) and not bad and stage_kind == "paused":
+        for rule in ("TSLACK", "LWRPT", "FIFO"):
+            kwc = dict(runner.sim_kwargs(dict(opts, rule=rule)), initialize_state_info=False, initialize_log_info=False)
+            try:
+                m3 = runner.prepare(spec, opts)
+                setup_subprojects(m3, spec)
+                op(m3.project)
+                p3 = load(f1)
+                col.checks["c16.continue"] += 1
+                try:
+                    m3.project.simulate(**kwc)
+                except Exception:
+                    continue  # the original itself cannot be continued under this rule: no claim about the copy
+                p3.simulate(**kwc)
+                a, b = jdump(m3), jdump(S.adopt(p3))
+                if a != b:
+                    d = first_diff(a, b)
+                    out.append(("C16:continued-run-of-loaded-project-differs:%s" % (d[0][0] if d else "?"), {"stage": stage_name, "rule": rule, "first_difference(path, original, loaded)": d}))
+            except Exception as e:
+                out.append(("C16:continuing-the-loaded-project-raised:%s" % type(e).__name__, {"stage": stage_name, "rule": rule, "error": repr(e)}))
     # re-simulation
     if uses_only_saved_settings(spec) and not bad:
         kw = runner.sim_kwargs(opts)
@@ -234,6 +255,7 @@ def models(tier, tmpdir):
         if sp0["label"] == "fac:2:per-task:one-cap2:plain:both":
             sp = dict(sp0, workplaces=[dict(wp, cap="inf") for wp in sp0["workplaces"]])  # a workplace without space limit
             out.append((sp, {"rule": "TSLACK", "max_time": 12}, "infinite-capacity"))
+    out.append((F.shared_id_spec(), {"rule": "TSLACK", "max_time": 12}, "worker-and-facility-ids-coincide"))
     for sp in F.same_name_task_specs()[:2]:
         out.append((sp, {"rule": "TSLACK", "max_time": 14}, "same-name"))
     # sub-project task, configured from a saved result and (second model) never configured
@@ -470,7 +492,7 @@ def run(tier, seed):
         "rule": "histories stage; write; read; write on real projects: models (FS chain, parallel, automatic, facility+conveyor, shared, nested, numeric edge values, zero work, empty lists, flows with absence, "
         "FAC samples, configured and unconfigured sub-project task) x every stage (never simulated, initialized, paused at EVERY step k, finished forward, finished backward with both reverse flags): writing never "
         "raises, the re-export of the loaded project equals the file value-for-value, every cross reference resolves to an object of the loaded project, re-simulation equals the original's for models using "
-        "only saved settings; plus the behavioural constructor-parameter audit: for every class and every constructor parameter found by inspect.signature (outside a documented exclusion list) the attribute is "
+        "only saved settings, and a paused project continues (state and logs kept) to the same result in the original and in the loaded project under TSLACK, LWRPT and FIFO; plus the behavioural constructor-parameter audit: for every class and every constructor parameter found by inspect.signature (outside a documented exclusion list) the attribute is "
         "set to a non-default value, saved, loaded and compared; non-trivial = distinct (model, stage) beyond 'never simulated' + audited (class, parameter) pairs",
         "bounds": {"models": len(ms), "model_stage_pairs": len(items)},
         "assumptions": ["exclusion list of the audit: " + ", ".join("%s (%s)" % kv for kv in sorted(EXCLUDED.items())),
